@@ -309,7 +309,9 @@ func replacementImplRTL(data *syntax.ReplacerData, al *[]string, m *Match) {
 	l := *al
 	buf := &bytes.Buffer{}
 
-	for _, r := range data.Rules {
+	// the caller emits al back to front, so the pieces of one match go in last rule first
+	for i := len(data.Rules) - 1; i >= 0; i-- {
+		r := data.Rules[i]
 		buf.Reset()
 		if r >= 0 { // string lookup
 			l = append(l, data.Strings[r])
